@@ -102,15 +102,19 @@ class UpdateMeta(Contract):
         self.name = 'updatemeta[%s counts,%s DATE-TIME]' % ('stale' if stale else 'no', 'with' if has_dt else 'without')
 
     def inputs(self, ctx, I):
-        ctx.modstate[(IO, '_ioapi_defaults')] = {}
+        # the defaults table is treated generically by updatemeta (every key that is not an attribute yet is set): a three-entry
+        # stand-in, one of whose keys (GDTYP) is already an attribute of the file and must therefore be left alone
+        ctx.modstate[(IO, '_ioapi_defaults')] = {'FTYPE': 1, 'NTHIK': 1, 'GDTYP': 1}
         self.n = dict(LAY=ctx.fresh('nlay'), ROW=ctx.fresh('nrow'), COL=ctx.fresh('ncol'), TSTEP=ctx.fresh('nt'))
         dims = {d: dim_obj(I, d, n, unlimited=ctx.fresh('unl_' + d, 'Bool')) for d, n in self.n.items()}
         if self.has_dt:
             dims['DATE-TIME'] = dim_obj(I, 'DATE-TIME', 2)
-        attrs = {}
+        attrs = dict(XORIG=ctx.fresh('XORIG', 'Real'), YORIG=ctx.fresh('YORIG', 'Real'), XCELL=ctx.fresh('XCELL', 'Real'), YCELL=ctx.fresh('YCELL', 'Real'),
+                     VGLVLS=Opaque('VGLVLS'), VGTOP=ctx.fresh('VGTOP', 'Real'), GDTYP=ctx.fresh('GDTYP'), title='kept')
         if self.stale:
-            attrs = dict(NLAYS=ctx.fresh('old_nlays'), NROWS=ctx.fresh('old_nrows'), NCOLS=ctx.fresh('old_ncols'))
+            attrs.update(NLAYS=ctx.fresh('old_nlays'), NROWS=ctx.fresh('old_nrows'), NCOLS=ctx.fresh('old_ncols'))
         f = pnc_file(I, dimensions=dims, attrs=attrs, relpath=IO, clsname='ioapi_base')
+        self.a0 = dict(f.attrs)
         return dict(self=f, attdict={})
 
     def requires(self, inp):
@@ -127,7 +131,17 @@ class UpdateMeta(Contract):
                 ('DATE-TIME-dimension=2', isinstance(dt, Obj) and eq(dt.attrs['_len'], 2)),
                 ('dimension-lengths-kept', And(*[eq(d[k].attrs['_len'], n) for k, n in self.n.items()])),
                 ('variable-list-refreshed-then-time-flags', 'getVarlist' in called and 'updatetflag' in called and called.index('getVarlist') < called.index('updatetflag')),
-                ('counts-listed-as-attributes', all(k in a['_ncattrs'] for k in ('NLAYS', 'NROWS', 'NCOLS')))]
+                ('counts-listed-as-attributes', all(k in a['_ncattrs'] for k in ('NLAYS', 'NROWS', 'NCOLS')))] + self.frame(a)
+
+    WRITES = ('NLAYS', 'NROWS', 'NCOLS') + tuple(sorted(set(k for w, _ in FrameProved.WRITES.values() for k in w)))
+
+    def frame(self, a):
+        # what the IOAPI wrappers rely on (C11): the grid origin, cell sizes, level attributes and every other attribute that
+        # exists are the objects they were; only the counts, what the three callees may write, and ABSENT defaults are set
+        changed, relisted = attr_frame(a, self.a0, self.WRITES + ('FTYPE', 'NTHIK'))
+        return [('frame: no existing attribute written besides the counts and what getVarlist / _updatetime / updatetflag may write %s' % (changed or ''), not changed),
+                ('frame: no other attribute listed or unlisted %s' % (relisted or ''), not relisted),
+                ('absent defaults are set, present ones kept', a.get('FTYPE') == 1 and a.get('NTHIK') == 1 and a.get('GDTYP') is self.a0['GDTYP'])]
 
 
     # -- replay on the real function -----------------------------------------------------------------------------------
@@ -175,6 +189,13 @@ class UpdateMeta(Contract):
             if not ok:
                 return r
             out = out or r
+        def prepare(f):
+            # attributes that also have an entry in the defaults table, moved away from the default values
+            for k, v in dict(GDTYP=2, P_ALP=31., NTHIK=3, UPNAM='VERIF'.ljust(16), XORIG=-999.5).items():
+                setattr(f, k, v)
+        fr = frame_replay(lambda f: f.updatemeta(), self.WRITES, allowed_dims=('VAR',), allowed_vars=('TFLAG',), prepare=prepare)
+        if not fr[0]:
+            return fr
         return out
 
 
